@@ -202,6 +202,8 @@ func envMetrics(attr *LNode, rich bool) {
 		attr.Add("nested", LA(LA(LO("k", LS("v"))), LA(), LA(LA())))
 		attr.Add("escapes", LS("tab\t quote\" backslash\\ slash/ nl\n uni\u00e9\u65e5 <&> \u2028 \U0001F600 ctl\u0001"))
 		attr.Add("k\"ey \\ \u00e9", LS(""))
+		attr.Add("tab\tkey\u0001", LS("ctl"))
+		attr.Add("nl\nkey", LO("in\rner", LN("1")))
 	}
 	attr.Add("protocol", LS("op_msg"))
 	attr.Add("durationMillis", LN("12"))
